@@ -8,40 +8,41 @@ import (
 
 // Profile selects which descriptor features a lab switches on (DESIGN §2.1 feature profiles).
 type Profile struct {
-	Name            string
-	MaxControllers  int
-	MaxMethods      int
-	MultiPkg        bool
-	MultiFile       bool
-	Hidden          bool
-	Deprecated      bool
-	NonEndpoint     bool // methods without @Method / with empty route, methods of unrelated types
-	Security        bool
-	DefaultSecP     float64
-	ParamIn         []string
-	ParamTypeLevel  int  // 0 strings, 1 all primitives, 2 + enums/aliases/pointers/query slices
-	Validators      bool // validators on parameters
-	FieldValidators bool
-	Models          int // 0 none, 1 simple, 2 rich
-	CustomErrors    bool
-	Responses       bool
-	RouteStyle      string // clean | slashy
-	CtlRouteParams  bool
-	VerbPathReuse   bool
-	SameNameCtls    bool
-	Maps            bool
-	UsageValidators bool // validators on $ref-typed fields/params
-	HiddenJSON      bool // json:"-" and unexported fields
-	Descriptions    bool
-	WireNames       bool
-	ValueReceivers  bool
-	CtxParams       bool
-	EnforceP        float64
-	AnyBytesTime    bool // any / []byte / time.Time in fields and results
-	NestedSlices    bool
-	MutualRecursion bool
-	AllRules        bool // draw validators from every rule either converter understands (C11)
-	BareControllers bool // controllers without @Route / @Tag / any doc comment at all
+	Name              string
+	MaxControllers    int
+	MaxMethods        int
+	MultiPkg          bool
+	MultiFile         bool
+	Hidden            bool
+	Deprecated        bool
+	NonEndpoint       bool // methods without @Method / with empty route, methods of unrelated types
+	Security          bool
+	DefaultSecP       float64
+	ParamIn           []string
+	ParamTypeLevel    int  // 0 strings, 1 all primitives, 2 + enums/aliases/pointers/query slices
+	Validators        bool // validators on parameters
+	FieldValidators   bool
+	Models            int // 0 none, 1 simple, 2 rich
+	CustomErrors      bool
+	Responses         bool
+	RouteStyle        string // clean | slashy
+	CtlRouteParams    bool
+	VerbPathReuse     bool
+	SameNameCtls      bool
+	Maps              bool
+	UsageValidators   bool // validators on $ref-typed fields/params
+	HiddenJSON        bool // json:"-" and unexported fields
+	Descriptions      bool
+	WireNames         bool
+	ValueReceivers    bool
+	CtxParams         bool
+	EnforceP          float64
+	AnyBytesTime      bool // any / []byte / time.Time in fields and results
+	NestedSlices      bool
+	MutualRecursion   bool
+	AllRules          bool // draw validators from every rule either converter understands (C11)
+	BareControllers   bool // controllers without @Route / @Tag / any doc comment at all
+	RuntimeValidators bool // only validators whose run-time semantics the router labs model
 }
 
 var verbs = []string{"GET", "POST", "PUT", "DELETE", "PATCH"}
@@ -138,7 +139,7 @@ func (g *gen) structsFor(from string, limit int) []Struct {
 		if limit >= 0 && i >= limit {
 			break
 		}
-		if visible(from, st.Pkg) && !st.IsError {
+		if visible(from, st.Pkg) && !st.IsError && (st.Pkg == from || st.Name[0] < 'a' || st.Name[0] > 'z') {
 			out = append(out, st)
 		}
 	}
@@ -315,14 +316,30 @@ func (g *gen) genTypes() {
 		}
 		p.Structs = append(p.Structs, s)
 	}
+	if prof.Models >= 2 && g.chance(0.35) {
+		// an unexported struct type (exported fields) that later structs of its package may embed
+		hidden := Struct{Name: g.fresh(g.pick([]string{"auditInfo", "baseFields", "meta"})), Pkg: p.Structs[0].Pkg,
+			Fields: []Field{{GoName: "CreatedBy", Type: Prim("string"), JSONName: "createdBy"}, {GoName: "Revision", Type: Prim("int"), JSONName: "revision", Validate: "gte=0"}}}
+		p.Structs = append([]Struct{hidden}, p.Structs...)
+		p.SetFeature("unexported-embedded-type")
+	}
 	for i := range p.Structs {
 		s := &p.Structs[i]
+		if len(s.Fields) > 0 {
+			continue // pre-filled
+		}
 		nf := 1 + g.r.Intn(5)
 		usedF := map[string]bool{}
 		usedJ := map[string]bool{}
-		if earlier := g.structsFor(s.Pkg, i); prof.Models >= 2 && len(earlier) > 0 && g.chance(0.25) {
-			// embedded earlier struct
+		if earlier := g.structsFor(s.Pkg, i); prof.Models >= 2 && len(earlier) > 0 && g.chance(0.3) {
+			// embedded earlier struct (an unexported type can only be embedded inside its own package)
 			e := earlier[g.r.Intn(len(earlier))]
+			if e.Name[0] >= 'a' && e.Name[0] <= 'z' && e.Pkg != s.Pkg {
+				e = earlier[len(earlier)-1]
+			}
+			if e.Name[0] >= 'a' && e.Name[0] <= 'z' && e.Pkg != s.Pkg {
+				continue
+			}
 			s.Fields = append(s.Fields, Field{Embedded: true, Type: Named(e.Pkg, e.Name)})
 			usedF[e.Name] = true
 		}
@@ -466,6 +483,15 @@ func (g *gen) fieldValidator(t T) string {
 	var rules []string
 	if g.chance(0.5) {
 		rules = append(rules, "required")
+	}
+	if g.chance(0.15) {
+		// rules that merely contain the word "required" do not make the field required
+		rules = []string{g.pick([]string{"required_without=Other", "required_with=Other", "omitempty,required_if=Other x", "excluded_unless=required 1"})}
+		if b.K == "prim" && b.Name == "string" && g.chance(0.5) {
+			rules = []string{"oneof=required optional"}
+		}
+		g.p.SetFeature("required-lookalike-rule")
+		return strings.Join(rules, ",")
 	}
 	switch {
 	case b.K == "prim" && b.Name == "string":
@@ -654,6 +680,10 @@ func (g *gen) paramValidator(t T) string {
 	b := t.Deref()
 	if b.K != "prim" {
 		return ""
+	}
+	if g.chance(0.12) && !g.prof.RuntimeValidators {
+		// contains the word "required" without being the rule
+		return g.pick([]string{"required_without=Other", "excluded_unless=required 1"})
 	}
 	switch {
 	case b.Name == "string":
